@@ -50,16 +50,18 @@ def radius_range(bps, x, total):
     return lo, hi
 
 
-def check_file(f, opts, tmp):
-    """Returns a list of mismatch dicts for one specification file."""
+def check_file(f, opts, tmp, mbl=None, secs=None):
+    """Returns a list of mismatch dicts for one specification file (mbl: max_branch_len, secs: the sections expected with it)."""
     import numpy as np
     from jaxley.io.swc import swc_to_jaxley, read_swc
     path = os.path.join(tmp, "f.swc")
     write_swc(f, path)
-    secs = f["secs"]
+    secs = f["secs"] if secs is None else secs
     sig = {"single_point_soma": f["typ"][1] != 1, "connector": f["connector"], "npoints": f["n"]}
+    if mbl is not None:
+        sig["max_branch_len"] = True
     try:
-        parents, lens, rfns, types, coords = swc_to_jaxley(path)
+        parents, lens, rfns, types, coords = swc_to_jaxley(path, max_branch_len=mbl)
     except Exception as e:
         return [{"kind": "reader_raised", **sig, "err": type(e).__name__ + ": " + str(e)[:150]}]
     out = []
@@ -110,7 +112,7 @@ def check_file(f, opts, tmp):
     for ncomp in opts["ncomps"]:
         for min_radius in opts["min_radius"]:
             try:
-                cell = read_swc(path, ncomp=ncomp, min_radius=min_radius)
+                cell = read_swc(path, ncomp=ncomp, min_radius=min_radius, max_branch_len=mbl)
             except Exception as e:
                 return out + [{"kind": "read_swc_raised", **sig, "ncomp": ncomp, "err": type(e).__name__ + ": " + str(e)[:150]}]
             nodes = cell.nodes
@@ -147,13 +149,22 @@ def worker():
     import tempfile
     from harness.jaxsetup import jx  # noqa: F401
     job = json.load(open(sys.argv[1]))
-    res = {"files": 0, "cells": 0, "mismatch": []}
+    res = {"files": 0, "cells": 0, "split_reads": 0, "split_capped": 0, "mismatch": []}
     tmp = tempfile.mkdtemp(dir=os.environ.get("VERIF_WORK"))
     for f, build in job["files"]:
         opts = dict(job["opts"], build_cell=build)
         mm = check_file(f, opts, tmp)
         res["files"] += 1
         res["cells"] += 1 if build else 0
+        # the same file with max_branch_len, where the specification's splitting rule is defined and cuts something
+        for sp in f.get("split", []):
+            cut = any(s["parts"] > 1 for s in sp["secs"])
+            capped = any(not s["reached"] for s in sp["secs"])
+            if cut or capped:
+                res["split_reads"] += 1 if cut else 0
+                res["split_capped"] += 1 if capped else 0
+                mm += check_file(f, dict(opts, build_cell=build and (res["split_reads"] + res["split_capped"]) % 4 == 0), tmp,
+                                 mbl=float(sp["mbl"]), secs=sp["secs"])
         for m in mm:
             m["file"] = {k: f[k] for k in ("n", "par", "typ", "seg", "rad")}
             res["mismatch"].append(m)
@@ -165,18 +176,23 @@ def main():
     chk = C.Check("C16", "model_checking")
     quick = C.tier() == "quick"
     rnd = random.Random(C.seed())
-    runs = [("swc_a", {"MaxN": 6, "MaxSoma": 2, "NTypes": 2, "SEEDK": C.seed() % 5}),
-            ("swc_b", {"MaxN": 5, "MaxSoma": 3, "NTypes": 3, "SEEDK": 1 + C.seed() % 5})]
+    gen = {"CHAIN_ONLY": False, "FREE_SEG": False}
+    # swc_chain: unbranched files with EVERY combination of segment lengths (the splitting rule of max_branch_len lives there)
+    runs = [("swc_a", {"MaxN": 6, "MaxSoma": 2, "NTypes": 2, "SEEDK": C.seed() % 5, **gen}),
+            ("swc_b", {"MaxN": 5, "MaxSoma": 3, "NTypes": 3, "SEEDK": 1 + C.seed() % 5, **gen}),
+            ("swc_chain", {"MaxN": 7, "MaxSoma": 2, "NTypes": 1, "SEEDK": C.seed() % 5, "CHAIN_ONLY": True, "FREE_SEG": True})]
     if not quick:
-        runs = [("swc_a", {"MaxN": 7, "MaxSoma": 2, "NTypes": 2, "SEEDK": C.seed() % 5}),
-                ("swc_b", {"MaxN": 6, "MaxSoma": 3, "NTypes": 3, "SEEDK": 1 + C.seed() % 5})]
+        runs = [("swc_a", {"MaxN": 7, "MaxSoma": 2, "NTypes": 2, "SEEDK": C.seed() % 5, **gen}),
+                ("swc_b", {"MaxN": 6, "MaxSoma": 3, "NTypes": 3, "SEEDK": 1 + C.seed() % 5, **gen}),
+                ("swc_chain", {"MaxN": 8, "MaxSoma": 2, "NTypes": 2, "SEEDK": C.seed() % 5, "CHAIN_ONLY": True, "FREE_SEG": True})]
     files = []
     states = trans = 0
     for name, consts in runs:
         cfg = os.path.join(C.WORK, name + ".cfg")
         os.makedirs(C.WORK, exist_ok=True)
         C.write_cfg(cfg, spec="Spec", constants=consts,
-                    invariants=["EveryPointInExactlyOneSectionBody", "SectionsFormATree", "TypesPartition"], constraints=["Emit"])
+                    invariants=["EveryPointInExactlyOneSectionBody", "SectionsFormATree", "TypesPartition", "SplitRespectsTheBound",
+                                "SplitKeepsTheTracedLength"], constraints=["Emit"])
         res = C.run_tlc("Swc", cfg, name, timeout=1700)
         if res.violated:
             chk.violation({"tlc_invariant": res.violated}, res.out[-2000:])
@@ -196,12 +212,14 @@ def main():
     opts = {"ncomps": [1, 3] if quick else [1, 2, 3, 5], "min_radius": [None, 1.5]}
     jobs = [{"opts": opts, "files": ch} for ch in C.chunks(items, C.NCPU * 2)]
     outs = C.run_workers("swc_check", jobs, timeout=3000)
-    nf = nc = 0
+    nf = nc = nsplit = nout = 0
     for o in outs:
         nf += o["files"]
         nc += o["cells"]
+        nsplit += o["split_reads"]
+        nout += o["split_capped"]
         for m in o["mismatch"]:
-            sig = {k: m[k] for k in ("kind", "single_point_soma", "connector") if k in m}
+            sig = {k: m[k] for k in ("kind", "single_point_soma", "connector", "max_branch_len") if k in m}
             if m["kind"] == "types":
                 sig["first_neurite_type_differs_from_last_point_type"] = m["first_neurite_type_differs_from_last_point_type"]
             chk.violation(sig, m)
@@ -210,17 +228,22 @@ def main():
     chk.set("traces_validated_against_impl", nf)
     chk.set("files_read", nf)
     chk.set("cells_built", nc)
+    chk.set("reads_with_max_branch_len_that_split", nsplit)
+    chk.set("reads_in_which_too_few_points_stop_the_splitting", nout)
+    if nsplit < 100 or nout < 100:
+        raise C.MachineryError("vacuity: only %d reads in which max_branch_len cuts a section, %d in which it cannot" % (nsplit, nout))
     chk.set("exhaustive", True)
     chk.set("evaluations", nf)
     chk.set("distinct_nontrivial", sum(1 for f in files if len(f["secs"]) >= 2))
     chk.set("rule", "every well-formed SWC structure (pre-ordered tree x type labelling, type changes along neurites, 1..3 soma points) "
                     "with <= %d points, segment lengths 0..3 and radii 1..3 as seeded functions of the structure; every file is written to "
                     "disk and read by swc_to_jaxley (sections, lengths, types, parents, connector, radius profile), a sample of %d by "
-                    "read_swc (cell lengths, radii incl. min_radius, groups, independence of ncomp); non-trivial = >= 2 sections"
+                    "read_swc (cell lengths, radii incl. min_radius, groups, independence of ncomp); every file whose sections max_branch_len = 2 or 5 "
+                    "cuts is read again with it (parts, their lengths <= the bound, parents, radius profile); non-trivial = >= 2 sections"
                     % (max(r[1]["MaxN"] for r in runs), nc))
     for f in files[:2] + files[-1:]:
         chk.sample({k: f[k] for k in ("n", "par", "typ", "seg", "rad")})
-    chk.assume("TLC", "well-formed = single tree, pre-order ids, soma points first as a chain; max_branch_len splitting is not modelled",
+    chk.assume("TLC", "well-formed = single tree, pre-order ids, soma points first as a chain; max_branch_len in {2, 5} is modelled as coded (cut by number of points, every part keeps >= 2 points, splitting stops where that is impossible)",
                "the 0.1 um connector branch is a named deviation pinned by the repository's own test")
     return chk.finish()
 
